@@ -11,6 +11,12 @@ From Coq Require Import List Arith Bool.
 Import ListNotations.
 From ZI Require Export Tie.RegCommon Model.Components Spec.Components.
 
+(* what a component returns when called (mirrors c16_driver.oracle_call) *)
+Definition call16 (v : value) (os : list nat) : option nat :=
+  let s := vid v + fold_right Nat.add 0 os in
+  if Nat.eqb (s mod 3) 0 then None
+  else Some (vid v * 100 + fold_left (fun c o => c * 10 + (o mod 10)) os 0).
+
 (* a query with the implementation's answer *)
 Inductive cq :=
 | QUtil (p : spec) (n : name) (ans : option nat)
@@ -75,11 +81,11 @@ Section Answers.
     | QUtil p n _ => QUtil p n (option_map vid (queryUtility W st p n))
     | QUtilsFor p _ => QUtilsFor p (sort_pairs (map (fun nv => (fst nv, vid (snd nv))) (getUtilitiesFor W st p)))
     | QAllUtils p _ => QAllUtils p (map (fun v => (vid v, veq v)) (getAllUtilitiesRegisteredFor W st p))
-    | QAdapter o p n _ => QAdapter o p n (queryAdapter W call st o p n)
-    | QMulti os p n _ => QMulti os p n (queryMultiAdapter W call st os p n)
-    | QGetAdapters os p _ => QGetAdapters os p (sort_pairs (getAdapters W call st os p))
+    | QAdapter o p n _ => QAdapter o p n (queryAdapter W call16 st o p n)
+    | QMulti os p n _ => QMulti os p n (queryMultiAdapter W call16 st os p n)
+    | QGetAdapters os p _ => QGetAdapters os p (sort_pairs (getAdapters W call16 st os p))
     | QSubscribers os p _ _ =>
-        let '(res, called) := subscribersOf W call st os p in QSubscribers os p res (map vid called)
+        let '(res, called) := subscribersOf W call16 st os p in QSubscribers os p res (map vid called)
     | QHandle os _ => QHandle os (map vid (handle W st os))
     end.
 
@@ -129,10 +135,10 @@ Section Answers.
     | QUtil p n a => q_queryUtility W L p n a
     | QUtilsFor p a => q_getUtilitiesFor W L p a
     | QAllUtils p a => q_getAllUtilities W L p (map snd a)
-    | QAdapter o p n a => q_queryMultiAdapter W call L [o] p n a
-    | QMulti os p n a => q_queryMultiAdapter W call L os p n a
-    | QGetAdapters os p a => q_getAdapters W call L os p a
-    | QSubscribers os p r c => q_subscribers W call L os p r c
+    | QAdapter o p n a => q_queryMultiAdapter W call16 L [o] p n a
+    | QMulti os p n a => q_queryMultiAdapter W call16 L os p n a
+    | QGetAdapters os p a => q_getAdapters W call16 L os p a
+    | QSubscribers os p r c => q_subscribers W call16 L os p r c
     | QHandle os c => q_handle W L os c
     end.
 
